@@ -88,10 +88,10 @@ Proof.
       rewrite (add_proj empty_batch x s Hn); [reflexivity|].
       intros _. destruct (x_ty x); cbn; unfold nos; cbn; auto.
     - cbn [a_last]. intros s. destruct (Z.eq_dec (x_ser x) s) as [E|E].
-      + subst s. destruct (x_ty x) eqn:Ety; try contradiction; cbn [is_hist_type]; rewrite ?Z.eqb_refl;
-          unfold add_to_batch; rewrite Ety; cbn [P b_floats b_hists b_fhists empty_batch]; unfold nos; cbn; auto.
+      + subst s. unfold add_to_batch. destruct (x_ty x) eqn:Ety; try contradiction;
+          cbn; rewrite ?Z.eqb_refl; cbn; unfold nos; cbn; auto.
       + apply add_P_diff; [assumption|]. apply P_empty.
-        destruct (is_hist_type (x_ty x)); [|exact I].
+        destruct (is_hist_type (x_ty x)); cbn; [|exact I].
         destruct (Z.eqb_spec s (x_ser x)); [congruence|exact I]. }
   unfold get_current_batch. destruct (a_last a) as [b|] eqn:EL; [|exact Hnew].
   (* continuing the last batch b, possibly recording the type of the series *)
@@ -126,34 +126,32 @@ Proof.
   destruct (x_ty x) eqn:Ety; try contradiction.
   - (* float *)
     destruct (a_types a (x_ser x)) as [prev|] eqn:ET.
-    + destruct (stype_eqb prev StFloat); [|exact Hnew].
-      destruct prev; cbn [P] in Hps; contradiction || (rewrite EL; exact Hnew) || idtac.
-      all: try (rewrite EL; apply Hcont; [reflexivity|]; rewrite Ety; auto).
-    + rewrite EL. apply Hcont; [reflexivity|]. rewrite Ety. auto.
+    + destruct prev; cbn [P] in Hps; try contradiction; cbn [stype_eqb]; exact Hnew.
+    + rewrite EL. apply Hcont; [reflexivity|]. auto.
   - destruct (a_types a (x_ser x)) as [prev|] eqn:ET.
     + destruct (stype_eqb prev StHist) eqn:Eq; [|exact Hnew].
-      destruct prev; try discriminate. rewrite EL. apply Hcont; [reflexivity|]. rewrite Ety. auto.
+      destruct prev; try discriminate. rewrite EL. apply Hcont; [reflexivity|]. auto.
     + cbn [a_done a_last a_types]. rewrite EL. apply Hcont.
       * intros s Hs. destruct (Z.eqb_spec s (x_ser x)); [contradiction|reflexivity].
-      * rewrite Ety, Z.eqb_refl. auto.
+      * rewrite Z.eqb_refl. auto.
   - destruct (a_types a (x_ser x)) as [prev|] eqn:ET.
     + destruct (stype_eqb prev StCBHist) eqn:Eq; [|exact Hnew].
-      destruct prev; try discriminate. rewrite EL. apply Hcont; [reflexivity|]. rewrite Ety. auto.
+      destruct prev; try discriminate. rewrite EL. apply Hcont; [reflexivity|]. auto.
     + cbn [a_done a_last a_types]. rewrite EL. apply Hcont.
       * intros s Hs. destruct (Z.eqb_spec s (x_ser x)); [contradiction|reflexivity].
-      * rewrite Ety, Z.eqb_refl. auto.
+      * rewrite Z.eqb_refl. auto.
   - destruct (a_types a (x_ser x)) as [prev|] eqn:ET.
     + destruct (stype_eqb prev StFHist) eqn:Eq; [|exact Hnew].
-      destruct prev; try discriminate. rewrite EL. apply Hcont; [reflexivity|]. rewrite Ety. auto.
+      destruct prev; try discriminate. rewrite EL. apply Hcont; [reflexivity|]. auto.
     + cbn [a_done a_last a_types]. rewrite EL. apply Hcont.
       * intros s Hs. destruct (Z.eqb_spec s (x_ser x)); [contradiction|reflexivity].
-      * rewrite Ety, Z.eqb_refl. auto.
+      * rewrite Z.eqb_refl. auto.
   - destruct (a_types a (x_ser x)) as [prev|] eqn:ET.
     + destruct (stype_eqb prev StCBFHist) eqn:Eq; [|exact Hnew].
-      destruct prev; try discriminate. rewrite EL. apply Hcont; [reflexivity|]. rewrite Ety. auto.
+      destruct prev; try discriminate. rewrite EL. apply Hcont; [reflexivity|]. auto.
     + cbn [a_done a_last a_types]. rewrite EL. apply Hcont.
       * intros s Hs. destruct (Z.eqb_spec s (x_ser x)); [contradiction|reflexivity].
-      * rewrite Ety, Z.eqb_refl. auto.
+      * rewrite Z.eqb_refl. auto.
 Qed.
 
 Lemma commit_proj l : Forall (fun x => x_ty x <> StNone) l ->
